@@ -31,6 +31,7 @@ class TypeDesc:
 def same_state(interp, a, b, ignore=(), path="$"):
     """Deep structural equality of two values / object graphs as bool | SBool."""
     ign = set(interp.bm.iterate(interp, ignore)) if not isinstance(ignore, (set, tuple)) else set(ignore)
+    ign |= {k.lstrip("_") for k in ign}     # ignoring a private attribute ignores the public property of the same name
     seen = {}
 
     def rec(x, y):
